@@ -408,6 +408,10 @@ def eval_histories(ctx, hists):
                 ctx.tag("kind:" + kind)
             if any(isinstance(v, int) and abs(v) >= 2 ** 31 for v in args_of(c).values()):
                 ctx.tag("bigint")
+            if c.get("x") == 255 and c.get("y") == 255 and fn in ("local_eth", "chip_coord", "fpga_link"):
+                ctx.tag("chip-255-255")
+            if (c.get("w"), c.get("h")) == (256, 256) or (c.get("width"), c.get("height")) == (256, 256):
+                ctx.tag("machine-256x256")
             if out.get("err") == "DidNotReturn":
                 # every function of the model is total (local_eth_spec, fpga_link_spec, std_dims_spec, ... state
                 # that a result exists): where the property demands an answer, not returning is a failure
@@ -495,7 +499,13 @@ def rnd_root(rng):
     return rng.randrange(-40, 300), rng.randrange(-40, 300)
 
 
+EDGE_XY = [0, 1, 11, 12, 127, 128, 254, 255]       # 255 = largest chip coordinate (8-bit); 127/128, 11/12 = triad/sign edges
+EDGE_WH = [256, 255, 252, 253, 13, 12, 1]          # maximal (ragged: 256 = 21 triads + 4), just below, whole triads, minimal
+
+
 def rnd_size(rng):
+    if rng.random() < 0.1:
+        return rng.choice(EDGE_WH)
     r = rng.random()
     if r < 0.6:
         return 12 * rng.randrange(1, 9)
@@ -507,6 +517,10 @@ def rnd_size(rng):
 
 
 def rnd_coord(rng, w):
+    if rng.random() < 0.1:
+        ok = [v for v in EDGE_XY if v < w]
+        if ok:
+            return rng.choice(ok)
     r = rng.random()
     if w <= 0 or r < 0.05:
         return rng.randrange(-30, 130)
@@ -693,6 +707,46 @@ def scale_cases(ctx):
     return cases
 
 
+def boundary_cases(ctx, nroots, all_links):
+    """boundary coordinates crossed with boundary machine sizes: x, y in EDGE_XY x w, h in EDGE_WH (x < w, y < h),
+    roots in {0, 1, 11}^2 and random, for all four spinn5_* functions (both coordinates extreme at once included)"""
+    rng = ctx.rng
+    fixed = [(a, b) for a in (0, 1, 11) for b in (0, 1, 11)]
+    cases = []
+    i = 0
+    for w in EDGE_WH:
+        for h in EDGE_WH:
+            roots = [fixed[(i + j) % 9] for j in range(nroots)] + [rnd_root(rng)]
+            i += 1
+            cases.append({"fn": "eth_coords", "width": w, "height": h, "rx": roots[0][0], "ry": roots[0][1], "slow": True})
+            for x in EDGE_XY:
+                for y in EDGE_XY:
+                    if x < w and y < h:
+                        i += 1
+                        for rx, ry in [fixed[(i + j) % 9] for j in range(nroots)] + [rnd_root(rng)]:
+                            base = {"x": x, "y": y, "rx": rx, "ry": ry}
+                            cases.append(dict(base, fn="local_eth", w=w, h=h))
+                            cases.append(dict(base, fn="chip_coord"))
+                            for l in (range(6) if all_links else [rng.randrange(6)]):
+                                cases.append(dict(base, fn="fpga_link", link=l))
+    return cases
+
+
+def border_ring_256(ctx, nroots):
+    """every chip on the border of the maximal 256 x 256 machine (thorough)"""
+    rng = ctx.rng
+    ring = [(x, y) for x in range(256) for y in range(256) if x in (0, 255) or y in (0, 255)]
+    cases = []
+    for rx, ry in [(0, 0)] + [rnd_root(rng) for _ in range(nroots)]:
+        for x, y in ring:
+            base = {"x": x, "y": y, "rx": rx, "ry": ry}
+            cases.append(dict(base, fn="local_eth", w=256, h=256))
+            cases.append(dict(base, fn="chip_coord"))
+            for l in range(6):
+                cases.append(dict(base, fn="fpga_link", link=l))
+    return cases
+
+
 def twin(rng, c):
     """equal to c in all but one aspect"""
     t = dict(c)
@@ -782,6 +836,10 @@ def run(ctx):
     cases += [dress(rng, c) if i % 2 else c for i, c in enumerate(rc)]
     cases += board_cases(ctx, ctx.scale(20, 300) * (4 if big_ else 1))
     cases += [dress(rng, c) for c in bigint_cases(ctx, ctx.scale(60, 1000))]
+    bc = boundary_cases(ctx, ctx.scale(1, 9), not ctx.quick)
+    cases += [dress(rng, c) if i % 3 == 0 else c for i, c in enumerate(bc)]
+    if not ctx.quick:
+        cases += border_ring_256(ctx, 2)
     if not ctx.quick:
         # every width and height up to 48 (ragged and exact) with a few roots each
         for width in range(0, 49):
